@@ -4,9 +4,14 @@ import re
 
 def unsafe_decode(string):
   try:
-    return float(string)
+    value = float(string)
   except:
     raise gfapy.FormatError
+  if not math.isfinite(value):
+    # (e.g. 1e400: it could not be written back)
+    raise gfapy.ValueError(
+      "{} cannot be represented as a float".format(repr(string)))
+  return value
 
 def decode(string):
   validate_encoded(string)
